@@ -1399,3 +1399,128 @@ def cal_worker(mod, job):
         except (irx.MemFault, irx.LibAbort) as e:
             out['fault'] = '%s: %s' % (type(e).__name__, e)
     return out
+
+
+# ---------------------------------------------------------------------------------------------------------------------
+# apply on a frequency grid that differs from the calibration's (subset / single / reordered selection of the calibration points)
+
+APPLY_GRIDS = {'all': (0, 1, 2), 'ends': (0, 2), 'last': (2,), 'upper': (1, 2), 'middle': (1,)}
+
+
+def apply_grid_worker(mod, job):
+    """job: {'id', 'type': T8|U8|TE10|UE10, 'n': 1|2, 'grid': key of APPLY_GRIDS}.  A calibration with 3 frequencies and symbolic error terms
+    (solver results are fresh symbols) is applied by the real vnacal_apply_m to symbolic measurements at a selection of the calibration
+    frequencies: the returned S must satisfy the documented equation with the error terms OF THAT FREQUENCY (interpolation is exact at the
+    given points and does not depend on how many points are requested)."""
+    import z3, irsym, irx
+    from irx import NULL, sgn, Special
+    from irsym import Rat, Ptr
+    from props import calcfg
+    typ, n, sel = job['type'], job['n'], APPLY_GRIDS[job['grid']]
+    out = {'id': job['id'], 'paths': 0, 'queries': 0, 'unsat': 0, 'sat': [], 'unknown': [], 'fault': None, 'funcs': []}
+    freqs = [Fraction(10 ** 9), Fraction(2 * 10 ** 9), Fraction(4 * 10 ** 9)]
+    cfg = Config(typ, n, n, calcfg.base_set(typ, n, n))
+    L = layout_doc(typ, n, n)
+    def run(ch, holder):
+        flow = Flow(mod); it = flow.it; holder['flow'] = flow
+        it.choices = list(ch); it.generic = True
+        res = {'queries': 0, 'unsat': 0, 'sat': [], 'unknown': []}
+        flow.create(); flow.new_alloc(typ, n, n, 3)
+        assert flow.set_frequencies(freqs) == 0
+        def val(spec, tag_): return cconst(PRE[spec][1])
+        handles = {}
+        for k, st in enumerate(cfg.stds):
+            sm = std_model(cfg, st, k, val)
+            per_f = [oracle_measurements(cfg, st, k, sm, symbolic=True, mvalue=lambda r, c, fi=fi, k=k: csym('m%d_%d%d_f%d' % (k, r, c, fi))) for fi in range(3)]
+            mvals = [[pf[0][i] for pf in per_f] for i in range(len(per_f[0][0]))]
+            assert add_standard(flow, cfg, st, k, mvals, None, handles, val) == 0
+        flow.xname = lambda q: 'g%d' % q
+        assert flow.solve() == 0
+        n_out = L['el'] + L['el_terms']
+        terms = [read_error_terms(flow, n_out, f) for f in range(3)]
+        ci = flow.icall('vnacal_add_calibration', [flow.vcp, it.static_str(b'c'), flow.vnp])
+        assert ci == 0
+        K = len(sel)
+        M = [[[csym('dm%d%d_q%d' % (r, c, q)) for q in range(K)] for c in range(n)] for r in range(n)]
+        mp = flow.cmatrix([M[r][c] for r in range(n) for c in range(n)])
+        vdp = flow.call('vnadata_alloc', [NULL, NULL])
+        rc = flow.icall('vnacal_apply_m', [flow.vcp, 0, flow.dvec([freqs[i] for i in sel]), K, mp, n, n, vdp])
+        def check(cond, q, detail=None):
+            res['queries'] += 1
+            if cond: res['unsat'] += 1
+            else: res['sat'].append({'q': q, 'detail': detail})
+            return cond
+        if rc == -1 and it.errors and b'singular' in it.errors[-1][1] and it.get_errno() == 33:
+            # the branch on which the determinant of the system is zero / not a normal number: reported through the documented error path
+            check(True, 'a singular system is reported with EDOM'); res['singular_path'] = True
+            flow.call('vnadata_free', [vdp]); flow.call('vnacal_new_free', [flow.vnp]); flow.call('vnacal_free', [flow.vcp])
+            check(not it.live_heap(), 'nothing stays allocated', len(it.live_heap()))
+            return res
+        if not check(rc == 0, 'vnacal_apply_m on a selection of the calibration frequencies succeeds', it.errors[-1:]): return res
+        zero = cconst(0)
+        for q, fi in enumerate(sel):
+            e = terms[fi]
+            S = [[None] * n for _ in range(n)]
+            for r in range(n):
+                for c in range(n):
+                    w = flow.call('vnadata_get_cell', [vdp, q, r, c]); S[r][c] = C(w[0], w[1])
+            Mq = [[M[r][c][q] for c in range(n)] for r in range(n)]
+            if typ in (TE10, UE10):
+                k_ = L['el']
+                for r in range(n):
+                    for c in range(n):
+                        if r != c: Mq[r][c] = Mq[r][c] - e[k_]; k_ += 1
+            D = lambda off: [[e[off + r] if r == c else zero for c in range(n)] for r in range(n)]
+            blk = [D(L['ts']), D(L['ti']), D(L['tx']), D(L['tm'])]
+            def sub(X, Y): return [[X[r][c] - Y[r][c] for c in range(n)] for r in range(n)]
+            def add(X, Y): return [[X[r][c] + Y[r][c] for c in range(n)] for r in range(n)]
+            if typ in IS_T:      # (Ts - M Tx) S = M Tm - Ti
+                Rm = sub(mat_mul(sub(blk[0], mat_mul(Mq, blk[2])), S), sub(mat_mul(Mq, blk[3]), blk[1]))
+            else:                # S (Ux M + Us) = Um M + Ui        (blocks: um, ui, ux, us)
+                Rm = sub(mat_mul(S, add(mat_mul(blk[2], Mq), blk[3])), add(mat_mul(blk[0], Mq), blk[1]))
+            ex = []
+            for r in range(n):
+                for c in range(n): ex += [Rm[r][c].re, Rm[r][c].im]
+            if any(isinstance(x, Special) for x in ex): res['sat'].append({'q': 'applied S at requested point %d is finite' % q}); continue
+            st_, mdl = irsym.check_zero(it, ex, timeout_ms=60000)
+            res['queries'] += 1
+            if st_ == 'unsat': res['unsat'] += 1
+            elif st_ == 'sat': res['sat'].append({'q': 'requested point %d (calibration frequency %d): S satisfies the documented equation with the error terms of that frequency' % (q, fi),
+                                                  'model': {d.name(): str(mdl[d]) for d in list(mdl.decls())[:10]}})
+            else: res['unknown'].append({'q': 'requested point %d' % q, 'why': str(mdl)})
+        flow.call('vnadata_free', [vdp]); flow.call('vnacal_new_free', [flow.vnp]); flow.call('vnacal_free', [flow.vcp])
+        check(not it.live_heap(), 'nothing stays allocated', len(it.live_heap()))
+        res['funcs'] = sorted(it.funcs_run)
+        return res
+    try:
+        rs = all_paths(run, max_paths=64)
+    except (irx.MemFault, irx.LibAbort) as e_:
+        out['fault'] = '%s: %s' % (type(e_).__name__, e_); return out
+    fs = set()
+    for r in rs:
+        out['paths'] += 1; out['queries'] += r['queries']; out['unsat'] += r['unsat']; out['sat'] += r['sat']; out['unknown'] += r['unknown']; fs.update(r.get('funcs', []))
+    out['funcs'] = sorted(fs)
+    return out
+
+
+def apply_grid_native(job):
+    """the same selection natively: calibrate on 3 frequencies with frequency-dependent error terms, apply at the selected points"""
+    typ, n, sel = job['type'], job['n'], APPLY_GRIDS[job['grid']]
+    L = ['#include <stdio.h>', '#include <stdlib.h>', '#include <math.h>', '#include <complex.h>', '#include <vnacal.h>',
+         'static void errfn(const char *m, void *a, vnaerr_category_t c) { fprintf(stderr, "libvna: %s\\n", m); }',
+         '/* one-port error box per frequency: m = (ts s + ti) / (tx s + 1) */',
+         'static const double complex ts[3] = {1.1 + 0.1 * I, 0.7 - 0.2 * I, 1.4 + 0.3 * I}, ti[3] = {0.05, -0.1 + 0.05 * I, 0.2 * I}, tx[3] = {0.1 * I, 0.2, -0.15 + 0.1 * I};',
+         'static double complex meas(int f, double complex s) { return (ts[f] * s + ti[f]) / (tx[f] * s + 1.0); }',
+         'int main(void) { int bad = 0; const double fv[3] = {1e9, 2e9, 4e9}; vnacal_t *vcp = vnacal_create(errfn, NULL);',
+         '  vnacal_new_t *vnp = vnacal_new_alloc(vcp, VNACAL_%s, 1, 1, 3); vnacal_new_set_frequency_vector(vnp, fv);' % NAMES[typ],
+         '  double complex v[3]; double complex *p[1] = {v};',
+         '  for (int f = 0; f < 3; ++f) v[f] = meas(f, -1); vnacal_new_add_single_reflect_m(vnp, p, 1, 1, VNACAL_SHORT, 1);',
+         '  for (int f = 0; f < 3; ++f) v[f] = meas(f, 1); vnacal_new_add_single_reflect_m(vnp, p, 1, 1, VNACAL_OPEN, 1);',
+         '  for (int f = 0; f < 3; ++f) v[f] = meas(f, 0); vnacal_new_add_single_reflect_m(vnp, p, 1, 1, VNACAL_MATCH, 1);',
+         '  if (vnacal_new_solve(vnp) != 0 || vnacal_add_calibration(vcp, "c", vnp) != 0) return 2;',
+         '  const int sel[%d] = {%s}; double fq[%d]; double complex dm[%d]; double complex *dp[1] = {dm}; const double complex dut = 0.3 - 0.4 * I;' % (len(sel), ', '.join(str(i) for i in sel), len(sel), len(sel)),
+         '  for (int q = 0; q < %d; ++q) { fq[q] = fv[sel[q]]; dm[q] = meas(sel[q], dut); }' % len(sel),
+         '  vnadata_t *vd = vnadata_alloc(errfn, NULL); if (vnacal_apply_m(vcp, 0, fq, %d, dp, 1, 1, vd) != 0) { fprintf(stderr, "VF-ASSERT-FAIL: apply failed\\n"); return 1; }' % len(sel),
+         '  for (int q = 0; q < %d; ++q) if (cabs(vnadata_get_cell(vd, q, 0, 0) - dut) > 1e-9) { fprintf(stderr, "VF-ASSERT-FAIL: corrected S at %%g Hz is %%g%%+gi, device is %%g%%+gi\\n", fq[q], creal(vnadata_get_cell(vd, q, 0, 0)), cimag(vnadata_get_cell(vd, q, 0, 0)), creal(dut), cimag(dut)); bad = 1; }' % len(sel),
+         '  vnadata_free(vd); vnacal_new_free(vnp); vnacal_free(vcp); return bad; }']
+    return '\n'.join(L) + '\n'
